@@ -1,12 +1,8 @@
 SPECIFICATION Spec
-CONSTANTS Variant = "code" RecordHist = FALSE MaxCmds = 5
+CONSTANTS Variant = "reclear" RecordHist = FALSE MaxCmds = 5
 CONSTANT Threads <- MCThreads1
 CONSTANT Prog <- MCProg
 CONSTANT Lines <- MCLines
 INVARIANT TypeOK
-INVARIANT NoLostWakeup
 INVARIANT ContinueReleases
-INVARIANT ReportedIsSuspended
-INVARIANT BreakpointsSuspend
-PROPERTY StopReleasesAll
 CHECK_DEADLOCK FALSE
